@@ -198,31 +198,99 @@ def run(chk, facts):
     try:
         it = syn.one_fn("init", mod="generate::convert::class")
         loc_i = facts.loc_of(it)
-        s = src(it["body"]).replace(" ", "")
-        nodes = list(walk(it["body"]))
-        # no explicit constructor: arguments are the class arguments as they are
-        ok = any(n.get("k") == "tuple" and src(n).replace(" ", "") == "(Vec::from(class_args),parent_inits)" for n in nodes)
-        chk.ob("R-C17-4", "args=class_args", ok, "without an explicit constructor the parameters are the class arguments, in order" if ok else
-               "__init__ no longer takes exactly the class arguments in their order", loc_i)
-        ok = any(n.get("k") == "local" and src(n["pat"]).replace(" ", "") == "mutnew_stmts" and src(strip(n["init"])) == "parent_inits" for n in nodes) and \
-            any(n.get("k") == "mcall" and n["m"] == "append" and src(strip(n["recv"])) == "new_stmts" and "old_stmts" in src(n["args"][0]) for n in nodes)
-        chk.ob("R-C17-4", "parent-calls-first", ok, "parent constructor calls precede the explicit constructor's statements" if ok else "the order of parent calls and constructor statements changed", loc_i)
-        # self first
-        ok = any(n.get("k") == "local" and src(n["pat"]).replace(" ", "") == "mutnew_args" and "arg::python::SELF" in src(n["init"]) for n in nodes) and \
-            any(n.get("k") == "mcall" and n["m"] == "append" and src(strip(n["recv"])) == "new_args" and src(strip(n["args"][0])) == "args" for n in nodes)
-        chk.ob("R-C17-4", "self-first", ok, "`self` is prepended when the list does not start with it" if ok else "__init__ no longer gets `self` as its first parameter", loc_i)
-        # structural filter
-        flt = [n for n in nodes if n.get("k") == "mcall" and n["m"] == "filter"]
-        ok = len(flt) == 1 and src(strip(strip(flt[0]["args"][0])["body"])).replace(" ", "") == "!parent_args.iter().any(|p_args|p_args.iter().any(|p_arg|(p_arg==arg)))"
-        chk.ob("R-C17-4", "forwarded=structural-equality", ok, "a class argument is skipped only if a parent argument is structurally equal to it" if ok else
-               f"the test that decides whether a class argument is stored in `self` changed: `{src(flt[0]['args'][0])[:100] if flt else '-'}`", loc_i)
-        # parents mapped in order into parent_inits
-        pi = [n for n in nodes if n.get("k") == "local" and "parent_inits" in src(n["pat"])]
-        bad = []
-        for l in pi:
-            for ch in _chains_from(l["init"], "parents"):
-                bad += [m for m in ch if m not in ORDER_OK and m not in ("append",)]
-        chk.ob("R-C17-4", "parent-calls-in-order", bool(pi) and not bad, "parent constructor calls are emitted in declaration order" if pi and not bad else f"parent constructor calls are derived through {bad}", loc_i)
+        # `init` is folded over five small classes (rules/smalleval.py): what the synthesised constructor takes and does is stated on its
+        # result, so any spelling of the function is accepted and any other constructor is named
+        from .smalleval import SmallEval, NoEval
+        consts = {}
+        for cname, c in syn.consts.items():
+            if c.get("e", {}).get("k") == "lit":
+                consts[cname] = c["e"]["v"]
+                consts["::".join(cname.split("::")[-3:])] = c["e"]["v"]
+                consts["::".join(cname.split("::")[-2:])] = c["e"]["v"]
+        local = {f_["name"]: f_ for f_ in syn.fns if f_["mod"] == it["mod"] and f_.get("impl_of") is None and f_.get("body")}
+        Id = lambda l: {"__struct__": "Id", "lit": l}
+        Ty = lambda l: {"__struct__": "Type", "lit": l, "generics": ("list", [])}
+        Arg = lambda n_: {"__struct__": "FunArg", "vararg": False, "var": Id(n_), "ty": None, "default": None}
+        Call = lambda f_, a_: {"__struct__": "FunctionCall", "function": f_, "args": ("list", a_)}
+
+        def shape(v):
+            """the constructor as (parameter names, statements) with statements abbreviated"""
+            if v is None:
+                return None
+            if not (isinstance(v, tuple) and v[0] == "Some" and isinstance(v[1], dict) and v[1].get("__struct__") == "FunDef"):
+                return ("?", str(v)[:60])
+            fd = v[1]
+            def nm(x):
+                if isinstance(x, dict) and x.get("__struct__") == "FunArg":
+                    return nm(x["var"])
+                if isinstance(x, dict) and x.get("__struct__") in ("Id", "Type"):
+                    return x["lit"]
+                return "?"
+            def st(x):
+                if isinstance(x, dict) and x.get("__struct__") == "Assign":
+                    l_ = x["left"]
+                    return f"{nm(l_['object'])}.{nm(l_['property'])}={nm(x['right'])}" if isinstance(l_, dict) and l_.get("__struct__") == "PropertyCall" else "assign?"
+                if isinstance(x, dict) and x.get("__struct__") == "PropertyCall":
+                    pr = x["property"]
+                    if isinstance(pr, dict) and pr.get("__struct__") == "FunctionCall":
+                        return f"{nm(x['object'])}.{nm(pr['function'])}({','.join(nm(a_) for a_ in pr['args'][1])})"
+                if isinstance(x, tuple) and x and x[0] == "sym":
+                    return x[1]
+                return "?"
+            body = fd["body"]
+            stmts = body["statements"][1] if isinstance(body, dict) and body.get("__struct__") == "Block" else [body]
+            return (fd.get("id"), [nm(a_) for a_ in fd["arg"][1]], [st(x) for x in stmts])
+        s1 = ("sym", "stmt1")
+        old = {"__struct__": "FunDef", "dec": ("list", []), "id": "__init__", "arg": ("list", [Arg("self"), Arg("a")]), "ty": None,
+               "body": {"__struct__": "Block", "statements": ("list", [s1])}}
+        cases = [
+            ("class arguments only", None, [Arg("x"), Arg("y")], [], ("__init__", ["self", "x", "y"], ["self.x=x", "self.y=y"])),
+            ("one parent, one class argument", None, [Arg("x")], [Ty("P")], ("__init__", ["self", "x"], ["P.__init__(self)", "self.x=x"])),
+            ("an argument handed to the parent", None, [Arg("x"), Arg("y")], [Call(Ty("P"), [Id("x")]), Ty("Q")], ("__init__", ["self", "x", "y"], ["P.__init__(self,x)", "Q.__init__(self)", "self.y=y"])),
+            ("explicit constructor and a parent", ("Some", old), [], [Ty("P")], ("__init__", ["self", "a"], ["P.__init__(self)", "stmt1"])),
+            ("nothing to do", None, [], [], None),
+        ]
+        ev_i = SmallEval(local_fns=local, consts=consts)
+        fails = {}
+        for label, oi, ca, ps, want in cases:
+            try:
+                import copy
+                r_ = ev_i.call(it, [copy.deepcopy(oi), ("list", copy.deepcopy(ca)), ("list", copy.deepcopy(ps))])
+                r_ = r_[1] if isinstance(r_, tuple) and r_ and r_[0] == "Ok" else r_
+                got = shape(r_)
+                if got != want:
+                    fails[label] = f"gives {got}, expected {want}"
+            except NoEval as ex:
+                fails[label] = f"could not be evaluated ({ex})"
+        groups = {
+            "args=class_args": (["class arguments only", "one parent, one class argument"], "without an explicit constructor the parameters are `self` and the class arguments, in order, and each argument not handed to a parent is stored in `self`"),
+            "parent-calls-first": (["explicit constructor and a parent", "one parent, one class argument"], "parent constructor calls precede the constructor's own statements"),
+            "self-first": (["class arguments only", "explicit constructor and a parent"], "`self` is the first parameter, once"),
+            "forwarded=structural-equality": (["an argument handed to the parent"], "a class argument is not stored only if it is handed to a parent constructor"),
+            "parent-calls-in-order": (["an argument handed to the parent"], "parent constructor calls are emitted in declaration order, with the arguments given to them"),
+        }
+        for key, (labels, text) in groups.items():
+            bad = [f"{l_}: {fails[l_]}" for l_ in labels if l_ in fails]
+            chk.ob("R-C17-4", key, not bad, text if not bad else f"the synthesised constructor changed - {bad[0]}", loc_i)
+        # cases that exist only to reach the defensive arms of `init` (a parent that is neither a type nor a call of one, an explicit
+        # constructor whose body is a single statement or that is not a function): no expectation, the result is not looked at
+        dont_care = [
+            (None, [Id("not-an-argument")], [Id("p"), Call(Id("q"), [])]),
+            (("Some", {"__struct__": "FunDef", "dec": ("list", []), "id": "__init__", "arg": ("list", [Id("self")]), "ty": None, "body": s1}), [], []),
+            (("Some", Id("x")), [], []),
+            (("Some", {"__struct__": "FunDef", "dec": ("list", []), "id": "__init__", "arg": ("list", [{"__struct__": "FunArg", "vararg": False, "var": Ty("T"), "ty": None, "default": None}]), "ty": None, "body": s1}), [], []),
+        ]
+        for oi, ca, ps in dont_care:
+            try:
+                ev_i.call(it, [copy.deepcopy(oi), ("list", copy.deepcopy(ca)), ("list", copy.deepcopy(ps))])
+            except NoEval:
+                pass
+        unc = ev_i.uncovered()
+        chk.ob("R-C17-4", "fold-covers-every-branch", not unc, f"the case table reaches every branch of `init` ({len(ev_i.cov)} branch outcomes)" if not unc else
+               f"the case table of this rule does not reach {len(unc)} branch(es) of the constructor synthesis, e.g. {unc[0]}: what `init` does there is not decided "
+               "(a branch added to the function is reported here until a case covers it)", loc_i)
+        bad = [f"{l_}: {fails[l_]}" for l_ in ("nothing to do",) if l_ in fails]
+        chk.ob("R-C17-4", "none-when-empty", not bad, "no constructor is synthesised when there is nothing for it to do" if not bad else f"the synthesised constructor changed - {bad[0]}", loc_i)
         init_emitted(chk, facts, "R-C17-4")
     except AnchorError as e:
         chk.anchor_fail("R-C17-4", e)
